@@ -796,6 +796,13 @@ func (tx *FnTx) resolverUpTo(b *ssa.BasicBlock, phiOverride map[*ssa.Phi]Term, a
 						if _, isFn := x.X.(*ssa.Function); isFn {
 							continue
 						}
+						// a variable that lives in a cell (captured by a closure, address taken): this reference is one
+						// READ of it; the name denotes the cell's current content, not the value read here
+						if a := tx.cellOf(obj); a != nil {
+							if l := tx.locOfPointer(a, nil); l != nil {
+								return Term{}, l, true
+							}
+						}
 						return tx.val(x.X), nil, true
 					}
 				}
@@ -835,6 +842,21 @@ func (tx *FnTx) resolverUpTo(b *ssa.BasicBlock, phiOverride map[*ssa.Phi]Term, a
 		}
 		return Term{}, nil, false
 	}
+}
+
+// cellOf returns the Alloc that holds the source variable obj, if the variable lives in a cell of this function.
+func (tx *FnTx) cellOf(obj types.Object) *ssa.Alloc {
+	if obj == nil || !obj.Pos().IsValid() {
+		return nil
+	}
+	for _, b := range tx.fn.Blocks {
+		for _, in := range b.Instrs {
+			if a, ok := in.(*ssa.Alloc); ok && a.Comment == obj.Name() && a.Pos() == obj.Pos() {
+				return a
+			}
+		}
+	}
+	return nil
 }
 
 // ancestorsOf: the blocks from which b is reachable (excluding b itself), in index order.
